@@ -2,5 +2,6 @@
 package props
 
 import (
+	_ "verif/props/c01"
 	_ "verif/props/c24"
 )
